@@ -2647,6 +2647,14 @@ pub fn vh_mcdata(a: &Args) {
                     }
                 }
                 McStep::Group(op) => op,
+                McStep::Down { fopts } => {
+                    let (nwk, app, ad) = view.keys?;
+                    let net = Net { nwk, app, addr: ad, sent: vec![] };
+                    let n = view.fcnt_down.map(|x| x + 1).unwrap_or(0);
+                    let mut plan = plain();
+                    plan.rx1.push(Frame { bytes: net.data(n, false, false, &fopts, -1, &[], false, false), snr: 3, intent: "auth:cmds".into() });
+                    Op::Send { port: 1, data: vec![6], confirmed: false, draws: vec![], plan }
+                }
                 McStep::Take => Op::TakeDl,
                 McStep::Send => Op::Send { port: 1, data: vec![8], confirmed: false, draws: vec![], plan: plain() },
             })
@@ -2704,6 +2712,8 @@ enum McStep {
     Hear { frame: Vec<u8>, slot: u8 },
     /// cross-check marker: the group as the network side holds it
     Group(Op),
+    /// an authentic unicast downlink with MAC commands in FOpts, in RX1 of an uplink
+    Down { fopts: Vec<u8> },
     Take,
     Send,
 }
@@ -2870,6 +2880,20 @@ fn mc_table_scripts(seed: u64, nrandom: usize) -> Vec<Vec<McStep>> {
             Setup { cmds: g0.setup_cmd(), via: 0 }, g0.marker(),
             hear(&g0, 0, 0), Send, hear(&g0, 1, 1), Send, hear(&g0, 2, 2), hear(&g0, 3, 3), Take,
             hear(&g0, 0, 0), hear(&g0, 3, 1), hear(&g0, 2, 2), hear(&g0, 4, 0), hear(&g0, 5, 1), Send, Take,
+        ]);
+    }
+    // T7: the network commands a TX power above what the radio can do (LinkADRReq TXPower 0 = the regional maximum,
+    // 16 dBm EIRP on a 14 dBm radio), then a lower one: the handler's own uplinks respect the same limits as any other
+    {
+        let g0 = McNet::new(0, a_, k(0x71), 0, 50);
+        out.push(vec![
+            Down { fopts: vec![0x03, 0x50, 0x07, 0x00, 0x01] },
+            Setup { cmds: g0.setup_cmd(), via: 0 }, g0.marker(),
+            Setup { cmds: vec![0x01, 0x0f], via: 2 },
+            Setup { cmds: vec![0x00], via: 1 },
+            Down { fopts: vec![0x03, 0x53, 0x07, 0x00, 0x01] },
+            Setup { cmds: vec![0x01, 0x01], via: 0 },
+            hear(&g0, 0, 4), Take, Send,
         ]);
     }
     // seeded random walks over the table
